@@ -40,6 +40,7 @@ type C10Req struct {
 	Multi   bool                `json:"multi_error,omitempty"`
 	Strict  bool                `json:"include_response_status,omitempty"`
 	ExclBody bool               `json:"exclude_bodies,omitempty"`
+	RNoBody  bool               `json:"response_without_body,omitempty"` // ResponseValidationInput.Body is nil (a response that has no body at all)
 }
 type C10Case struct {
 	Doc  map[string]any `json:"doc"`
@@ -145,6 +146,9 @@ func c10One(c *C10Case, phase func(string)) C10Obs {
 			}
 			rin := &openapi3filter.ResponseValidationInput{RequestValidationInput: in, Status: q.Status, Header: http.Header(q.RHeader),
 				Body: io.NopCloser(strings.NewReader(q.RBody)), Options: opts}
+			if q.RNoBody {
+				rin.Body = nil
+			}
 			var rerr error
 			guard(&o, "validate-response", func() { rerr = openapi3filter.ValidateResponse(context.Background(), rin) })
 			// the same input once more (a caller re-validating, e.g. in another error mode)
@@ -440,7 +444,7 @@ func c10Random(r *Rng) C10Case {
 		}
 		q := C10Req{Method: method,
 			Target: target, Body: Pick(r, bodies), Status: Pick(r, []int{200, 201, 204, 299, 301, 304, 400, 404, 500, 599, 600, 0, -1, 99, 1000}),
-			RBody: Pick(r, bodies), Multi: r.Bool(), Strict: r.Chance(40), ExclBody: r.Chance(10), Header: map[string][]string{}, RHeader: map[string][]string{}}
+			RBody: Pick(r, bodies), Multi: r.Bool(), Strict: r.Chance(40), ExclBody: r.Chance(10), RNoBody: r.Chance(6), Header: map[string][]string{}, RHeader: map[string][]string{}}
 		if ct := Pick(r, cts); ct != "" {
 			q.Header["Content-Type"] = []string{ct}
 		}
